@@ -21,7 +21,12 @@ pub fn run(cx: &mut Ctx) {
             let p = Phase::new(Rational64::new(n, d));
             cb(&|| format!("Phase::new({}/{})", n, d), if pr(p) == canon(n as i128, d as i128) { Ok(()) } else { Err(format!("stored {:?}, want {:?}", pr(p), canon(n as i128, d as i128))) });
             let q: Phase = (n, d).into();
-            cb(&|| format!("Phase::from(({}, {}))", n, d), if q == p { Ok(()) } else { Err(format!("stored {:?}", pr(q))) });
+            // compare the STORED numerator/denominator: Ratio's == cross-multiplies and would accept an unreduced value
+            cb(&|| format!("Phase::from(({}, {}))", n, d), if pr(q) == canon(n as i128, d as i128) { Ok(()) } else { Err(format!("stored {:?}, want {:?}", pr(q), canon(n as i128, d as i128))) });
+            let r: Phase = Rational64::new(n, d).into();
+            cb(&|| format!("Phase::from(Rational64 {}/{})", n, d), if pr(r) == canon(n as i128, d as i128) { Ok(()) } else { Err(format!("stored {:?}", pr(r))) });
+            let nm = p.normalize();
+            cb(&|| format!("normalize({}/{})", n, d), if pr(nm) == pr(p) { Ok(()) } else { Err(format!("normalize changed a canonical phase to {:?}", pr(nm))) });
         }
         for i in -50i64..=50 { let p: Phase = i.into(); cb(&|| format!("Phase::from({})", i), if pr(p) == canon(i as i128, 1) { Ok(()) } else { Err(format!("stored {:?}", pr(p))) }); }
     });
@@ -33,24 +38,26 @@ pub fn run(cx: &mut Ctx) {
             cb(&|| format!("{}/{} + {}/{}", a, b, c, d), if pr(p + q) == canon(a * d + c * b, b * d) { Ok(()) } else { Err(format!("got {:?}", pr(p + q))) });
             cb(&|| format!("{}/{} - {}/{}", a, b, c, d), if pr(p - q) == canon(a * d - c * b, b * d) { Ok(()) } else { Err(format!("got {:?}", pr(p - q))) });
             let mut r = p; r += q; let mut s = p; s -= q;
-            cb(&|| format!("{}/{} += / -= {}/{}", a, b, c, d), if r == p + q && s == p - q { Ok(()) } else { Err("compound assignment differs from the operator".into()) });
+            cb(&|| format!("{}/{} += / -= {}/{}", a, b, c, d), if pr(r) == pr(p + q) && pr(s) == pr(p - q) { Ok(()) } else { Err(format!("compound assignment differs from the operator: += gives {:?}, -= gives {:?}", pr(r), pr(s))) });
         }
             let p = Phase::new(Rational64::new(a, b));
             cb(&|| format!("-({}/{})", a, b), if pr(-p) == canon(-(a as i128), b as i128) { Ok(()) } else { Err(format!("got {:?}", pr(-p))) });
             for k in -13i64..=13 {
                 cb(&|| format!("{}/{} * {}", a, b, k), if pr(p * k) == canon(a as i128 * k as i128, b as i128) { Ok(()) } else { Err(format!("got {:?}", pr(p * k))) });
                 let mut m = p; m *= k;
-                cb(&|| format!("{}/{} *= {}", a, b, k), if m == p * k { Ok(()) } else { Err("*= differs from *".into()) });
+                cb(&|| format!("{}/{} *= {}", a, b, k), if pr(m) == pr(p * k) { Ok(()) } else { Err("*= differs from *".into()) });
             }
         }
     });
     cx.check("classification_depends_on_class", |cb| {
         for &(n, d) in &fr {
-            let p = Phase::new(Rational64::new(n, d));
+            for via_tuple in [false, true] {
+            let p: Phase = if via_tuple { (n, d).into() } else { Phase::new(Rational64::new(n, d)) };
             let (cn, cd) = canon(n as i128, d as i128);
             let pauli = cd == 1; let proper = cd == 2; let t = cd == 4;
             let ok = p.is_pauli() == pauli && p.is_proper_clifford() == proper && p.is_clifford() == (pauli || proper) && p.is_t() == t;
-            cb(&|| format!("{}/{} (class {}/{})", n, d, cn, cd), if ok { Ok(()) } else { Err(format!("pauli={} proper={} clifford={} t={}", p.is_pauli(), p.is_proper_clifford(), p.is_clifford(), p.is_t())) });
+            cb(&|| format!("{}/{} (class {}/{}) built from {}", n, d, cn, cd, if via_tuple { "a tuple" } else { "a Rational64" }), if ok { Ok(()) } else { Err(format!("pauli={} proper={} clifford={} t={}", p.is_pauli(), p.is_proper_clifford(), p.is_clifford(), p.is_t())) });
+            }
         }
     });
     cx.check("limit_denominator_closest", |cb| {
